@@ -67,7 +67,7 @@ def gen_matrix(ctx):
     # a square with a fine mesh: Triangle puts right-angled triangles at the corners (circumcentre on the boundary edge)
     out.append(dict(film=dict(kind="box", w=4, h=4, points=52), holes=[], terminals=[], mesh=dict(min_points=300), xi=1.0))
     # ... and seeded random combinations
-    n_rand = 30 if ctx.quick else 1000
+    n_rand = 20 if ctx.quick else 1000
     if not ctx.quick:
         meshes = meshes + [dict(max_edge_length=0.45), dict(max_edge_length=0.5, smooth=40), dict(min_points=300)]
     for _ in range(n_rand):
@@ -120,7 +120,7 @@ def run(ctx):
     long_ = [c for c in histories if len(c) == 3]
     hrnd.shuffle(long_)
     if ctx.quick:
-        histories = short + long_[:120]
+        histories = short + long_[:60]
     else:
         r4 = ctx.model_check("DevHeap", mg.heap_cfg(dict(hb, MaxDevs=4, MaxOps=4), mg.HCLAUSES + ["HEmit"], export=True, view=False),
                              name="DevHeap[MaxDevs=4, MaxOps=4, history export]", timeout=1200)
@@ -135,7 +135,8 @@ def run(ctx):
     gens = gen_matrix(ctx)
     jobs += [("gen_trace", g) for g in gens]
     jobs += [("hist_trace", dict(chain=c, device=["barhole", "ellipse"][n % 2])) for n, c in enumerate(histories)]
-    res = mg.run_batches(ctx, jobs, batch=6 if ctx.quick else 12)      # separate interpreters: a crash is an observation
+    # separate interpreters: a crash of the mesh generator is an observation; few, large batches (start-up dominates)
+    res = mg.run_batches(ctx, jobs, batch=max(6, min(120, len(jobs) // 12 + 1)))
     exact, gen, refused, invalid, crashed, hist = [], [], [], [], [], []
     for x in res:
         for t in (x if isinstance(x, list) else [x]):
